@@ -32,103 +32,7 @@ def strip_comments(s):
 
 src_nc = strip_comments(src)
 
-TOK = re.compile(r'\s*(?:(\d[\d_]*\.\d[\d_]*(?:f32|f64)?|\d[\d_]*(?:[iu](?:8|16|32|64))?)|([A-Za-z_][A-Za-z_0-9]*)|(::|<<|>>|<=|>=|==|!=|[-+*/<>(){}.,;=!]))')
-
-class TranslationError(Exception):
-    pass
-
-def tokenize(s):
-    pos = 0; out = []; s = s.rstrip()
-    while pos < len(s):
-        m = TOK.match(s, pos)
-        if not m:
-            if s[pos:].strip() == '': break
-            raise TranslationError("cannot tokenize at %r" % s[pos:pos + 20])
-        pos = m.end()
-        if m.group(1):
-            t = m.group(1).replace('_', '')
-            suffix = None
-            ms = re.match(r'^(.*?)(f32|f64|[iu](?:8|16|32|64))$', t)
-            if ms and not t.startswith('0x'): t, suffix = ms.group(1), ms.group(2)
-            out.append(('num', t, suffix))
-        elif m.group(2): out.append(('id', m.group(2)))
-        else: out.append(('op', m.group(3)))
-    return out
-
-class P:
-    def __init__(s, toks): s.t = toks; s.i = 0
-    def peek(s): return s.t[s.i] if s.i < len(s.t) else ('eof', '')
-    def peekv(s):
-        t = s.peek(); return (t[0], t[1])
-    def eat(s, k=None, v=None):
-        t = s.peek()
-        if (k and t[0] != k) or (v and t[1] != v):
-            raise TranslationError("expected %s %s got %s" % (k, v, t))
-        s.i += 1; return t
-    def expr(s): return s.cmp()
-    def cmp(s):
-        a = s.shift()
-        while s.peekv() in (('op', '<'), ('op', '>'), ('op', '<='), ('op', '>='), ('op', '=='), ('op', '!=')):
-            op = s.eat()[1]; b = s.shift(); a = ('cmp', op, a, b)
-        return a
-    def shift(s):
-        a = s.add()
-        while s.peekv() in (('op', '<<'), ('op', '>>')):
-            op = s.eat()[1]; b = s.add(); a = ('shift', op, a, b)
-        return a
-    def add(s):
-        a = s.mul()
-        while s.peekv() in (('op', '+'), ('op', '-')):
-            op = s.eat()[1]; b = s.mul(); a = ('arith', op, a, b)
-        return a
-    def mul(s):
-        a = s.cast()
-        while s.peekv() in (('op', '*'), ('op', '/')):
-            op = s.eat()[1]; b = s.cast(); a = ('arith', op, a, b)
-        return a
-    def cast(s):
-        a = s.unary()
-        while s.peekv() == ('id', 'as'):
-            s.eat(); t = s.eat('id')[1]; a = ('as', t, a)
-        return a
-    def unary(s):
-        if s.peekv() == ('op', '-'):
-            s.eat(); return ('neg', s.unary())
-        return s.postfix()
-    def postfix(s):
-        a = s.atom()
-        while s.peekv() == ('op', '.'):
-            s.eat(); m = s.eat('id')[1]; s.eat('op', '(')
-            args = []
-            while s.peekv() != ('op', ')'):
-                args.append(s.expr())
-                if s.peekv() == ('op', ','): s.eat()
-            s.eat('op', ')'); a = ('method', m, a, args)
-        return a
-    def block(s):
-        s.eat('op', '{'); e = s.expr(); s.eat('op', '}'); return e
-    def ifexpr(s):
-        s.eat('id', 'if'); c = s.expr(); a = s.block(); s.eat('id', 'else')
-        if s.peekv() == ('id', 'if'): b = s.ifexpr()
-        else: b = s.block()
-        return ('if', c, a, b)
-    def atom(s):
-        t = s.peek()
-        if (t[0], t[1]) == ('op', '('):
-            s.eat(); e = s.expr(); s.eat('op', ')'); return e
-        if (t[0], t[1]) == ('op', '{'):
-            return s.block()
-        if (t[0], t[1]) == ('id', 'if'):
-            return s.ifexpr()
-        if t[0] == 'num': s.eat(); return ('lit', t[1], t[2])
-        if t[0] == 'id':
-            path = [s.eat()[1]]
-            while s.peekv() == ('op', '::'):
-                s.eat(); path.append(s.eat('id')[1])
-            if s.peekv() == ('op', '('):
-                s.eat(); arg = s.expr(); s.eat('op', ')'); return ('call', path, arg)
-            return ('var', path)
-        raise TranslationError("unexpected token %s" % (t,))
+from rustexpr import TOK, TranslationError, tokenize, P, subst, fold
 
 REP = {'i8': 'i8', 'i16': 'i16', 'I24': 'i32', 'i32': 'i32', 'I48': 'i64', 'i64': 'i64',
        'u8': 'u8', 'u16': 'u16', 'U24': 'i32', 'u32': 'u32', 'U48': 'i64', 'u64': 'u64'}
@@ -165,9 +69,9 @@ for m in re.finditer(r'conversions!\((\w+),\s*(\w+)\s*\{(.*?)\n\}\);', src_nc, r
         var, fn = mm.group(1), mm.group(2)
         rec = dict(ty=ty, var=var, line=line, ast=None, err=None, text=' '.join(text.split()))
         try:
-            p = P(tokenize(text)); e = p.expr()
+            p = P(tokenize(text)); e = p.stmts()
             if p.peek()[0] != 'eof': raise TranslationError("trailing tokens %s" % (p.peek(),))
-            rec['ast'] = e
+            rec['ast'] = fold(e)
         except TranslationError as ex:
             rec['err'] = str(ex)
         funcs[(mod, fn)] = rec; order.append((mod, fn))
@@ -194,7 +98,7 @@ def tr(e, srcty, mod, var):
         return ('.var', srcty)
     if k == 'lit':
         if '.' in e[1]: raise TranslationError("float literal in integer expression")
-        return ('(.lit %s)' % int(e[1]), e[2])
+        return ('(.lit (%d))' % int(e[1]), e[2])
     if k == 'neg':
         a, t = tr(e[1], srcty, mod, var)
         if e[1][0] == 'lit': return ('(.lit (%d))' % (-int(e[1][1])), t)
@@ -232,6 +136,21 @@ def tr(e, srcty, mod, var):
         if e[1] == '/': raise TranslationError("integer division not supported")
         op = {'+': 'add', '-': 'sub', '*': 'mul'}[e[1]]
         return ('(.%s .%s %s %s)' % (op, t, a, b), t)
+    if k == 'bit':
+        a, ta = tr(e[2], srcty, mod, var); b, tb = tr(e[3], srcty, mod, var)
+        la, lb = e[2][0] == 'lit', e[3][0] == 'lit'
+        if la == lb: raise TranslationError("bit operation needs exactly one literal operand")
+        x, tx, m = (a, ta, int(e[3][1])) if lb else (b, tb, int(e[2][1]))
+        if tx is None or isinstance(tx, tuple): raise TranslationError("cannot type bit operation")
+        bits = BITS[tx]; signed = tx.startswith('i')
+        if e[1] == '^':
+            top = -(1 << (bits - 1)) if signed else (1 << (bits - 1))
+            if m != top: raise TranslationError("xor with a mask other than the sign bit")
+            return ('(.xorTop .%s %s)' % (tx, x), tx)
+        if e[1] == '&':
+            if signed or m < 0 or (m & (m + 1)) != 0 or m.bit_length() > bits: raise TranslationError("`&` supported only with a low-bits mask 2^k-1 on an unsigned operand")
+            return ('(.andLow .%s %s %d)' % (tx, x, m.bit_length()), tx)
+        raise TranslationError("bit operation %s not supported" % e[1])
     if k == 'cmp':
         raise TranslationError('comparison outside if')
     if k == 'if':
@@ -311,6 +230,28 @@ def pow2_of(lit):
     if v <= 0 or v & (v - 1): return None
     return v.bit_length() - 1
 
+def fconst(e):
+    """exponent k if the constant float expression `e` evaluates EXACTLY to 2^k in IEEE arithmetic (every
+    intermediate is a power of two within the normal range of f32, so each operation is exact); else None.
+    Recognised: float literals that are powers of two, `<integer constant> as fN`, products and quotients."""
+    k = e[0]
+    if k == 'lit':
+        if '.' in e[1]: return pow2_of(e[1])
+        return None
+    if k == 'as' and e[1] in FLOATS:
+        a = e[2]
+        if a[0] == 'lit' and '.' not in a[1]:
+            v = int(a[1])
+            if v > 0 and v & (v - 1) == 0: return v.bit_length() - 1
+            return None
+        return fconst(a)
+    if k == 'arith' and e[1] in ('*', '/'):
+        a, b = fconst(e[2]), fconst(e[3])
+        if a is None or b is None: return None
+        r = a + b if e[1] == '*' else a - b
+        return r if -120 <= r <= 120 else None
+    return None
+
 fshape = {}
 def tr_float(key):
     """returns lean text of an FConv value; records the recognised shape in fshape[key]"""
@@ -325,14 +266,20 @@ def tr_float(key):
         raise TranslationError("unrecognised float->float shape")
     if dst in FLOATS:
         # int -> float:  PRE as fN / LIT     or   super::iX::to_fN(to_iX(s))
-        if e[0] == 'arith' and e[1] == '/' and e[3][0] == 'lit' and e[2][0] == 'as' and e[2][1] == dst:
-            k = pow2_of(e[3][1])
-            if k is None or '.' not in e[3][1]: raise TranslationError("divisor is not a float power of two")
-            pre, t = tr(e[2][2], rec['ty'], mod, var)
+        if e[0] == 'arith' and e[1] in ('/', '*'):
+            # `(PRE as fN) / C`, `(PRE as fN) * C`, `C * (PRE as fN)` with C an exact constant power of two
+            x, c = e[2], e[3]
+            if e[1] == '*' and fconst(x) is not None and fconst(c) is None: x, c = c, x
+            kc = fconst(c)
+            if kc is None: raise TranslationError("scale factor is not an exact constant power of two")
+            if not (x[0] == 'as' and x[1] == dst): raise TranslationError("scaled operand is not `<integer expression> as %s`" % dst)
+            pre, t = tr(x[2], rec['ty'], mod, var)
             if t is None or isinstance(t, tuple): raise TranslationError("cast operand not primitive")
-            if pre != '.var': raise TranslationError("int->float cast operand is not the plain argument")
-            fshape[key] = ('i2f', k, t)
-            return '(.i2f %s .%s .%s %d)' % (pre, t, dst, k)
+            k = kc if e[1] == '/' else -kc
+            if k < 0: raise TranslationError("int->float scale factor is > 1")
+            ctor = 'i2f' if e[1] == '/' else 'i2fm'
+            fshape[key] = ('i2f', k, t, pre, ctor)
+            return '(.%s %s .%s .%s %d)' % (ctor, pre, t, dst, k)
         if e[0] == 'call':
             k1 = callee_key(e[1], mod)
             if k1[1] != 'to_' + dst: raise TranslationError("outer call is not to_%s" % dst)
@@ -348,9 +295,12 @@ def tr_float(key):
     if mod in FLOATS:
         # float -> int: (s * LIT) as T  | T::new_unchecked((s*LIT) as R) | super::iX::to_uX(to_iX(s))
         def core(e):
-            if e[0] == 'as' and e[2][0] == 'arith' and e[2][1] == '*' and e[2][2] == ('var', [var]) and e[2][3][0] == 'lit':
-                k = pow2_of(e[2][3][1])
-                if k is None or '.' not in e[2][3][1]: raise TranslationError("multiplier is not a float power of two")
+            if e[0] == 'as' and e[2][0] == 'arith' and e[2][1] == '*':
+                x, c = e[2][2], e[2][3]
+                if c == ('var', [var]): x, c = c, x       # multiplication of floats is commutative, bit for bit
+                if x != ('var', [var]): return None
+                k = fconst(c)
+                if k is None or k < 0: raise TranslationError("multiplier is not an exact constant power of two >= 1")
                 if e[1] not in PRIMS: raise TranslationError("cast to non-primitive")
                 return k, e[1]
             return None
@@ -479,7 +429,7 @@ open(os.path.join(OUT, 'ConvTable.lean'), 'w').write('\n'.join(tb) + '\n')
 OFFL = {f: (0 if f.startswith('i') else 2 ** (BITS[f] - 1)) for f in BITS}
 def amp(f, v='v'): return v if OFFL[f] == 0 else '(%s - %d)' % (v, OFFL[f])
 NN = 'norm_num [Dasp.f32, Dasp.f64]'
-ft = [HEADER] + ['import Dasp.Gen.ConvThm_%s' % s for s in intmods] + ['import Dasp.Lemmas.FloatConv', 'namespace Dasp.Gen', 'open Dasp', '']
+ft = [HEADER] + ['import Dasp.Gen.ConvThm_%s' % s for s in intmods] + ['import Dasp.Lemmas.FloatConv', 'import Dasp.Machine.ConvTac', 'namespace Dasp.Gen', 'open Dasp', '']
 fthm = {}
 def emit_i2f(key):
     if key in fthm or key not in fshape: return
@@ -488,13 +438,27 @@ def emit_i2f(key):
     name = '%s_to_%s_spec' % (s, d)
     stmt = ('/-- conv.rs:%d -/\n' % funcs[key]['line']) + 'theorem %s (v : Int) (h : Fmt.inRange .%s v) :\n    %s_to_%s.i2fVal v = specI2F Dasp.%s %s %d' % (name, s, s, d, d, amp(s), BITS[s] - 1)
     if sh[0] == 'i2f':
-        k = sh[1]
+        k = sh[1]; pre = sh[3]; ctor = sh[4]
         if k != BITS[s] - 1:
             errors.append(dict(function='%s_to_%s' % (s, d), line=funcs[key]['line'], error='divisor is 2^%d, expected 2^%d' % (k, BITS[s] - 1), text=funcs[key]['text']))
-        ft.append(stmt + ' := by\n'
+        lemma = 'i2f_shape' if ctor == 'i2f' else 'i2fm_shape'
+        if pre == '.var' and OFFL[s] == 0:
+            ft.append(stmt + ' := by\n'
                   + '  unfold %s_to_%s; simp only [FConv.i2fVal, val, FFmt.fmt]\n' % (s, d)
                   + '  simp only [Fmt.inRange, Fmt.lo, Fmt.hi] at h\n'
-                  + '  exact i2f_shape _ (by %s) v %d (by %s) (by %s) (by rw [abs_le]; norm_num; omega)' % (NN, k, NN, NN))
+                  + '  exact %s _ (by %s) v %d (by %s) (by %s) (by rw [abs_le]; norm_num; omega)' % (lemma, NN, k, NN, NN))
+        else:
+            # a general integer pre-expression: it must compute the signed amplitude without overflow
+            callees = ' '.join('%s_%s' % k2 for k2 in all_callees(key))
+            ft.append('/-- conv.rs:%d: the integer expression under the cast computes the signed amplitude, without overflow -/\n' % funcs[key]['line']
+                  + 'theorem %s_to_%s_pre (v : Int) (h : Fmt.inRange .%s v) :\n    ok v %s ∧ val v %s = %s := by\n' % (s, d, s, pre, pre, amp(s))
+                  + ('  unfold %s\n' % callees if callees else '')
+                  + '  conv_tac')
+            ft.append(stmt + ' := by\n'
+                  + '  have hp := (%s_to_%s_pre v h).2\n' % (s, d)
+                  + '  unfold %s_to_%s; simp only [FConv.i2fVal, FFmt.fmt]; rw [hp]\n' % (s, d)
+                  + '  simp only [Fmt.inRange, Fmt.lo, Fmt.hi] at h\n'
+                  + '  exact %s _ (by %s) %s %d (by %s) (by %s) (by rw [abs_le]; norm_num; omega)' % (lemma, NN, amp(s), k, NN, NN))
     elif sh[0] == 'viaInt':
         k0, k1 = sh[1], sh[2]
         emit_i2f(k1)
